@@ -38,9 +38,6 @@ Definition io_holds_r (p : iopc) : bool :=
   | IoHC k | IoHCb k | IoHCc k | IoHCd k | IoHCe k | IoHCx k => hc_is_sc k
   | _ => false
   end.
-(* inside the unlocked _flush_some of handle_write *)
-Definition io_uflush (p : iopc) : bool :=
-  match p with IoFlU | IoFlUR _ | IoFlUW _ => true | _ => false end.
 (* inside send_continue called from received() *)
 Definition io_sc (p : iopc) : bool :=
   match p with
@@ -71,14 +68,16 @@ Definition w_holds_o (p : wpc) : bool :=
   match p with
   | WHw1 (SWr _) | WHwF _ | WHwEP _ | WHwEW _ | WHwL1 _ | WHwL2 _ | WHwLP _ | WHwLW _ | WHwRel
   | WWs3 _ | WCdRel | WWs4 _ | WWs5 | WWsF _ | WWs6 | WWsP | WWsRel
-  | WSc1 | WSc2 _ | WScF | WScRel | WScX => true
+  | WSc1 | WScF | WScRel | WScX => true
   | _ => false
   end.
 Definition w_sc (p : wpc) : bool :=
   match p with
-  | WScA | WSc1 | WSc2 _ | WScF | WScRel | WScX | WScX2 => true
+  | WScA | WSc1 | WScF | WScRel | WScX | WScX2 => true
   | _ => false
   end.
+(* send_continue's flush raised: the exception is leaving service() *)
+Definition w_scx (p : wpc) : bool := match p with WScX | WScX2 => true | _ => false end.
 Definition w_holds_r (p : wpc) : bool :=
   match p with
   | WCl2 | WCl3 | WCl4 | WK4 | WK5 | WK5b | WK6 | WK7 => true
@@ -125,7 +124,11 @@ Definition imp (a b : bool) : bool := negb a || b.
 (* the worker has changed total_outbufs_len / set a flag and its next steps decide about (or
    perform) the pull_trigger for it *)
 Definition act_tot (p : wpc) : bool :=
-  match p with WWs5 | WWsF _ | WWs6 | WWsP => true | _ => false end.
+  match p with
+  | WWs5 | WWsF _ | WWs6 | WWsP => true
+  | WScF | WScRel | WK7 | WEnd1 | WEnd2 => true     (* send_continue in service(), pull at its end *)
+  | _ => false
+  end.
 Definition act_wc (p : wpc) : bool :=
   match p with WWsP | WHwEP _ => true | _ => false end.
 Definition act_cwf (p : wpc) : bool :=
@@ -143,7 +146,9 @@ Definition winv_b (c : cfg) (s : state) (j : nat) (p : wpc) : bool :=
   imp (w_holds_o p) (holds (olock s) (TW j)) &&
   imp (w_holds_r p) (holds (rlock s) (TW j)) &&
   imp (w_main p) (Nat.leb 1 (nreq s)) &&
-  negb (w_sc p) &&
+  imp (w_scx p) (closed s) &&
+  imp (w_sc p) (Nat.eqb (nreq s) 0) &&
+  imp (match p with WK6 => true | _ => false end) (Nat.eqb (nreq s) 0 || negb (conn s)) &&
   imp (w_exc p) (wc s) &&
   imp (w_above p) (hw c <? total s) &&
   imp (w_loopc p) (conn s) &&
@@ -159,8 +164,6 @@ Fixpoint forallb_i {A} (f : nat -> A -> bool) (i : nat) (l : list A) : bool :=
 Definition total_pend_ok (s : state) : bool :=
   (0 <=? pend s) &&
   match io s with
-  | IoFlUR n => total s =? pend s + n
-  | IoFlUW v => v =? pend s
   | IoHCc _ => true
   | _ => imp (conn s) (total s =? pend s)
   end.
@@ -172,11 +175,10 @@ Definition inv_b (c : cfg) (s : state) : bool :=
   imp (Nat.ltb 0 (queue s)) (Nat.leb 1 (nreq s)) &&
   imp (Nat.leb 1 (nreq s))
       (negb (conn s) || Nat.ltb 0 (queue s) || Nat.eqb (pendadd s) 1 || existsb w_busy (ws s)) &&
-  imp (io_uflush (io s) || io_sc (io s)) (Nat.eqb (nreq s) 0) &&
+  imp (io_sc (io s)) (Nat.eqb (nreq s) 0) &&
   total_pend_ok s &&
   imp (closed s) (negb (conn s)) &&
   imp (negb (conn s)) (closed s || io_hc_late (io s)) &&
-  negb (pend100 s) &&
   imp (negb (closed s) && writable_now s) (pulled s || io_covers s || existsb will_pull (ws s)) &&
   imp (negb (closed s) && readable_now c s) (pulled s || rcov (io s) || existsb will_pull (ws s)) &&
   imp (Nat.ltb 0 (queue s)) (existsb (fun p => negb (w_idle p)) (ws s)) &&
@@ -184,7 +186,7 @@ Definition inv_b (c : cfg) (s : state) : bool :=
   g6_b c s &&
   forallb_i (winv_b c s) 0 (ws s).
 
-(* the invariant is claimed outside the F18 class only *)
+(* the invariant is claimed for runs in which no worker-side send_continue has raised *)
 Definition inv_ok (c : cfg) (s : state) : bool := taint s || inv_b c s.
 
 (* quiescence in the narrow sense of the property: the I/O thread sleeps in select,
